@@ -10,10 +10,39 @@ class C08(Property):
     partial = ["C08_tree (full conformance of subcommand trees to the declarative grammar) is decided by the differential run "
                "and the oracle; the theorems cover entering, scoping, the leftover check and help after the name"]
 
+    @staticmethod
+    def chain_family(rng, k):
+        """Command chains: `construct!([a.adjacent(), b.adjacent()]).many()` -- every command takes the items from its name up
+        to the next command name.  The blocks are independent: each block alone gives a one-element list, the chain must give
+        the list of those elements in order (the flags of the commands share their names on purpose)."""
+        names = gen.Names(rng, unicode_ok=False)
+        v, nlong = names.short(), names.long()
+        cmds = []
+        for _ in range(rng.choice([2, 2, 3])):
+            inner = gen.con(gen.wrap("count", gen.req_flag(gen.named([v], []))),
+                            gen.wrap("optional", gen.arg(gen.named([], [nlong]), "N", "u32"), catch=False))
+            cmds.append(gen.cmd(names.cmdname(), gen.options(inner, descr="Lc"), adjacent=True, help="c"))
+        opts = gen.options(gen.wrap("many", gen.alt(*cmds), catch=False), descr="Lchain")
+        blocks = []
+        for _ in range(rng.choice([1, 2, 2, 3])):
+            c = rng.choice(cmds)
+            b = [c["name"].encode()] + [b"-" + v.encode()] * rng.choice([0, 1, 1, 2, 3])
+            if rng.random() < 0.3:
+                b += [b"--" + nlong.encode(), b"%d" % rng.randrange(50)]
+            blocks.append(b)
+        gid = "g%dq" % k
+        out = [Case("%ss%d" % (gid, i), opts, b, tags={"role": "chain_block", "group": gid, "ix": i}) for i, b in enumerate(blocks)]
+        out.append(Case(gid + "f", opts, [x for b in blocks for x in b], tags={"role": "chain", "group": gid, "n": len(blocks)}))
+        return out
+
     def generate(self, rng, tier, n):
         cases = []
         k = 0
         while len(cases) < n:
+            if rng.random() < 0.04:
+                cases.extend(self.chain_family(rng, k))
+                k += 1
+                continue
             opts, names = gen.gen_options(rng, features=("alt", "cmd", "pos", "modealt"), max_depth=3, allow_catch=False)
             if not common.has_kind(opts, ("cmd",)):
                 continue
@@ -124,9 +153,34 @@ class C08(Property):
                                                     "run on them alone, but %s inside the enclosing parser"
                                    % (ca.argv, common.show(impl.get(ca.id)), common.show(impl.get(cp.id))), related=[ca]))
         neutral = {c.tags["group"]: c for c in cases if c.tags["role"] == "neutral_word"}
+        blocks = {}
+        for c in cases:
+            if c.tags["role"] == "chain_block":
+                blocks.setdefault(c.tags["group"], {})[c.tags["ix"]] = c
         for c in cases:
             role = c.tags["role"]
             dist[role] = dist.get(role, 0) + 1
+            if role == "chain_block":
+                continue
+            if role == "chain":
+                bl = blocks.get(c.tags["group"], {})
+                vals = []
+                for i in range(c.tags["n"]):
+                    ib = impl.get(bl[i].id) if i in bl else None
+                    if ib is None or compare.impl_class(ib) != "OK" or not (ib[1].startswith("(list ") and ib[1].endswith(")")):
+                        vals = None
+                        break
+                    vals.append(ib[1][len("(list "):-1])
+                if vals is None:
+                    continue
+                nontrivial.append(c.line())
+                want = "(list %s)" % " ".join(vals)
+                ic = impl.get(c.id)
+                if compare.impl_class(ic) != "OK" or ic[1] != want:
+                    out.append(Finding("violation", c, "a chain of adjacent commands must give each command the items up to the next "
+                                                       "command name: the blocks alone give %s, the chain gives %s"
+                                       % (want, common.show(ic)), related=[bl[i] for i in sorted(bl)]))
+                continue
             if role == "alias_word":
                 nc = neutral.get(c.tags["group"])
                 ia, inn = impl.get(c.id), impl.get(nc.id) if nc else None
